@@ -98,13 +98,13 @@ def _alarm(signum, frame):
     raise RunTimeout("run exceeded its wall-clock guard")
 
 
-def run_one(setup, hostile=0.0, procs=1, problem=None, evaluator_type=None, timeout=30, **extra):
-    """returns (problem, algorithm, exception or None)"""
+def run_one(setup, hostile=0.0, procs=1, problem=None, evaluator_type=None, timeout=30, algorithm=None, **extra):
+    """returns (problem, algorithm, exception or None); algorithm given: that object's run() is called again"""
     r = (vrng.HostileRandom(setup["seed"], hostile) if hostile > 0 else vrng.SeededRandom(setup["seed"]))
     vrng.install(r)
     vrng.install_numpy(setup["seed"])
     p = problem or build_problem(setup, **extra)
-    a = make(setup["algo"], p, setup["N"], setup["G"], procs=procs, evaluator_type=evaluator_type)
+    a = algorithm or make(setup["algo"], p, setup["N"], setup["G"], procs=procs, evaluator_type=evaluator_type)
     err = None
     import signal
     import threading
